@@ -86,7 +86,7 @@ func HC09_stateless() {
 //verif:harness HC09_history mode=REAL reach=answered-twice
 func HC09_history() {
 	c := ChooseStd([]string{"criteriaOmission", "fatigue", "criteriaMixing"})
-	other := StdChoice{Method: rt.OneOf("other-method", "weightedSum", "satisfactionHeuristic", "electreIII"), Variant: "criteriaConcealment", CC: "none", AllConsidered: true, Values: 2}
+	other := StdChoice{Method: rt.OneOf("other-method", "weightedSum", "satisfactionHeuristic", "electreIII"), Variant: "criteriaConcealment", CC: "none", AllConsidered: true, Values: 2, Rich: true}
 	if other.Method == "satisfactionHeuristic" {
 		other.CC = "considered"
 	}
